@@ -574,11 +574,186 @@ func c13SingleFlight() CaseResult {
 
 func init() {
 	modes["C06"] = ModeSpec{
-		Cases: c06Cases,
-		Rule:  "a 4-batch history (good, unmarshalable, two-partition, good; explicit and row-limit flush triggers) over 4 store variants (writer with/without Abort, short writes, 3 compressions) is re-run with a failure injected at every store call position (CreateFile, Write, Close, Abort, TombstoneFile, Update) — singly in quick, every ordered pair in thorough; after two further fault-free flushes and a Merge the visible rows on this engine and on a fresh engine must equal the rows of nil-acknowledged batches, each once",
+		Cases: func(t string) []Case { return append(c06Cases(t), c06HistCases(t)...) },
+		Rule:  "ingest histories of <= 4 (quick) / 5 (thorough) steps over {good one/two-partition batches, batches with an unmarshalable or nil row in another / the same / a new partition than their good rows, Flush} with buffers left standing between batches, with and without a row-limit flush trigger, each poisoned history run 4 / 8 times because the partition walk follows Go map order: rejected batches must leave no trace, good batches must be acknowledged nil; plus a 4-batch history (good, unmarshalable, two-partition, good; explicit and row-limit flush triggers) over 4 store variants (writer with/without Abort, short writes, 3 compressions) is re-run with a failure injected at every store call position (CreateFile, Write, Close, Abort, TombstoneFile, Update) — singly in quick, every ordered pair in thorough; after two further fault-free flushes and a Merge the visible rows on this engine and on a fresh engine must equal the rows of nil-acknowledged batches, each once",
 	}
 	modes["C13"] = ModeSpec{
 		Cases: c13Cases,
 		Rule:  "Merge over 3-4 files in 1-2 merge groups is re-run with a failure at every store call position of every kind (iterator position, CreateFile, OpenFile, Seek, Read, Write, Close, Abort, Update, TombstoneFile), singly and (thorough) in pairs; committed-xor-unchanged oracle on MetaStore, DataStore, call log, return values and query answers; plus the single-flight scenario with a Merge held inside CreateFile",
 	}
+}
+
+// ---- C06: batch atomicity over ingest histories --------------------------------------------
+//
+// Histories over an alphabet of good, poisoned (unmarshalable or nil row) and multi-partition
+// batches and explicit flushes, with buffers left standing between batches. A rejected batch
+// must leave no trace whatever already sits in the partition buffers it touches. The order in
+// which the engine walks a batch's partitions is Go map order (random in this build), so
+// every history is run several times; no outcome of any run may violate the oracle.
+
+var c06HistAlphabet = []string{"G:a", "G:ab", "B:a/b", "B:b/a", "B:ab/c", "N:ab", "B:/a", "F"}
+
+func c06HistRun(hist []string, rowLimit int) (findings []Finding, sample string) {
+	data, meta := hstore.NewMemData(), hstore.NewMemMeta()
+	cfg := quietConfig()
+	cfg.BloomFalsePositiveRate = 0.01
+	cfg.PartitionFunc = func(r map[string]any) string { s, _ := r["p"].(string); return s }
+	if rowLimit > 0 {
+		cfg.MaxBufferedRows = rowLimit
+	}
+	eng, err := bs.NewBloomSearchEngine(cfg, meta, data)
+	if err != nil {
+		return []Finding{fnd("setup", "%v", err)}, ""
+	}
+	eng.Start()
+	defer func() {
+		ctx, cancel := context.WithTimeout(context.Background(), 10*time.Second)
+		defer cancel()
+		eng.Stop(ctx)
+	}()
+	ctx := context.Background()
+	var batches []*c06batch
+	name := strings.Join(hist, " ")
+	for i, st := range append(append([]string{}, hist...), "F") {
+		if st == "F" {
+			if err := eng.Flush(ctx); err != nil {
+				findings = append(findings, fnd("c06-flush-error", "C06 history [%s]: Flush returned %v", name, err))
+			}
+			continue
+		}
+		kind, spec := st[:1], st[2:]
+		good, badPart := spec, ""
+		if j := strings.Index(spec, "/"); j >= 0 {
+			good, badPart = spec[:j], spec[j+1:]
+		}
+		b := &c06batch{name: fmt.Sprintf("%d%s", i, st), done: make(chan error, 1), bad: kind != "G"}
+		for _, p := range good {
+			b.rows = append(b.rows, map[string]any{"id": fmt.Sprintf("%s.%c", b.name, p), "p": string(p)})
+		}
+		switch kind {
+		case "B":
+			b.rows = append(b.rows, map[string]any{"id": b.name + ".bad", "p": badPart, "f": func() {}})
+		case "N":
+			b.rows = append(b.rows, nil)
+		}
+		if err := eng.IngestRows(ctx, b.rows, b.done); err != nil {
+			findings = append(findings, fnd("c06-ingest-rejected", "C06 history [%s]: IngestRows(%s) returned %v", name, b.name, err))
+			return
+		}
+		batches = append(batches, b)
+	}
+	var want []string
+	acks := ""
+	for _, b := range batches {
+		select {
+		case b.ack = <-b.done:
+			b.got = true
+		case <-time.After(20 * time.Second):
+			findings = append(findings, fnd("c06-unanswered", "C06 history [%s]: batch %s not answered within 20s of the last Flush returning", name, b.name))
+		}
+		acks += fmt.Sprintf("%s=%v ", b.name, b.ack == nil && b.got)
+		if b.bad && b.got && b.ack == nil {
+			findings = append(findings, fnd("c06-bad-batch-acked", "C06 history [%s]: batch %s with an unmarshalable or nil row was answered with nil", name, b.name))
+		}
+		if !b.bad && b.got && b.ack != nil {
+			findings = append(findings, fnd("c06-good-batch-failed", "C06 history [%s]: good batch %s was answered %v on healthy stores (other batches must be unaffected)", name, b.name, b.ack))
+		}
+		if b.got && b.ack == nil {
+			for _, r := range b.rows {
+				want = append(want, fmt.Sprint(r["id"]))
+			}
+		}
+	}
+	for _, e := range []struct {
+		label string
+		fresh bool
+	}{{"this engine", false}, {"a fresh engine", true}} {
+		en := eng
+		if e.fresh {
+			if en, err = bs.NewBloomSearchEngine(cfg, meta, data); err != nil {
+				continue
+			}
+		}
+		qr := runQuery(en, nil)
+		if qr.Err != nil || qr.QueryErr != nil {
+			findings = append(findings, fnd("c06-query-error", "C06 history [%s]: query on %s failed: %v %v", name, e.label, qr.QueryErr, qr.Err))
+			continue
+		}
+		var got []string
+		for _, m := range qr.Maps {
+			got = append(got, fmt.Sprint(m["id"]))
+		}
+		miss, extra := diffMultiset(got, want)
+		if len(miss) > 0 {
+			findings = append(findings, fnd("c06-acked-not-visible", "C06 history [%s]: rows of nil-acknowledged batches are not visible on %s: %v (acks: %s)", name, e.label, miss, acks))
+		}
+		if len(extra) > 0 {
+			findings = append(findings, fnd("c06-unacked-visible", "C06 history [%s]: rows visible on %s that belong to no nil-acknowledged batch (a rejected batch left a trace, or a duplicate): %v (acks: %s)", name, e.label, extra, acks))
+		}
+	}
+	return findings, "history [" + name + "] acks: " + acks
+}
+
+func c06HistCases(tier string) []Case {
+	depth, repeats := 4, 4
+	if tier == "thorough" {
+		depth, repeats = 5, 8
+	}
+	var cs []Case
+	for fi, first := range c06HistAlphabet {
+		first := first
+		for _, rl := range []int{0, 3} {
+			rl := rl
+			if fi == len(c06HistAlphabet)-1 && rl > 0 {
+				continue
+			}
+			cs = append(cs, Case{ID: fmt.Sprintf("history/%s/rowlimit%d", first, rl), Run: func() CaseResult {
+				var res CaseResult
+				outcomes := map[string]bool{}
+				var rec func(h []string)
+				rec = func(h []string) {
+					poisoned := false
+					for _, s := range h {
+						if s[0] != 'G' && s[0] != 'F' {
+							poisoned = true
+						}
+					}
+					for r := 0; r < repeats; r++ {
+						fs, sample := c06HistRun(h, rl)
+						res.Evals++
+						outcomes[sample] = true
+						res.Findings = append(res.Findings, fs...)
+						res.Sample = sample
+						if !poisoned {
+							break // nothing order dependent in a history of good batches
+						}
+					}
+					res.Transitions++
+					if poisoned {
+						res.Nontrivial++
+					}
+					if len(h) == depth || len(res.Findings) > 8 {
+						return
+					}
+					for _, s := range c06HistAlphabet {
+						if s == "F" && h[len(h)-1] == "F" {
+							continue
+						}
+						rec(append(append([]string{}, h...), s))
+					}
+				}
+				rec([]string{first})
+				res.States = len(outcomes)
+				n := 0
+				for o := range outcomes {
+					if n < 6 {
+						res.Outcomes = append(res.Outcomes, o)
+					}
+					n++
+				}
+				return res
+			}})
+		}
+	}
+	return cs
 }
